@@ -388,6 +388,12 @@ func decodeGRPC(r *Response, p Protocol, alg string, h http.Header, body []byte,
 					r.problem("trailer block line %q is not a field line", line)
 					continue
 				}
+				// PROTOCOL-WEB: "use lower-case header/trailer names" - field names in the
+				// trailer block of the body are not HTTP/1.1 header names, readers (the
+				// grpc-web JavaScript client among them) look them up as written
+				if name := strings.TrimSpace(line[:j]); name != strings.ToLower(name) {
+					r.problem("trailer block field name %q is not lower-case", name)
+				}
 				k := textproto.CanonicalMIMEHeaderKey(strings.TrimSpace(line[:j]))
 				webTrailer[k] = append(webTrailer[k], strings.TrimSpace(line[j+1:]))
 			}
